@@ -252,7 +252,8 @@ def assemble(files, charset="bk", tree=None, keep=False, abort_at=None, reset=Tr
             out.site = crash_site(ex.__traceback__)
             out.tb = "".join(traceback.format_exception(type(ex), ex, ex.__traceback__)[-6:])
     finally:
-        if tree and not keep:
+        # ('keep' keeps the compiler objects for inspection, not the directory: millions of kept trees exhaust the inodes of /dev/shm)
+        if tree:
             shutil.rmtree(root, ignore_errors=True)
     out.reports = rec.reports
     if keep:
